@@ -7,7 +7,7 @@ import (
 	"verif/vkit"
 )
 
-var coll = vkit.NewCollector("C06", "TestWaitShutdown", "workloads in a synctest bubble (fake clock): 1-20 publishes to 1-4 Async handlers (plain/context-aware, +-Once) that sleep a drawn fake duration or block on a harness gate and may publish further async work up to depth 3, in three quarters of the cases as events of other types (2-4 of 7 types in a drawn order, so nested work moves between routing shards in both directions); drawn GOMAXPROCS in {1,2,4,16}; then Wait on the publishing goroutine, or Shutdown with a background / already-cancelled / timeout (shorter, longer, equal to the work) context over a store that counts Close (optionally failing, absent, or without Close). Oracle = model of expected invocations and of the fake time at which the work ends: completed == expected when Wait/Shutdown(nil) return; with gates, returning while a gate is closed is a violation with no timing involved; Shutdown nil => Close exactly once after completion, context error => Close never called, also later. Non-trivial = Wait/Shutdown issued while >=1 invocation is unfinished.")
+var coll = vkit.NewCollector("C06", "TestWaitShutdown", "workloads in a synctest bubble (fake clock): 1-20 publishes to 1-4 Async handlers (plain/context-aware, +-Once) that sleep a drawn fake duration or block on a harness gate and may publish further async work up to depth 3, in three quarters of the cases as events of other types (2-4 of 7 types in a drawn order, so nested work moves between routing shards in both directions); drawn GOMAXPROCS in {1,2,4,16}; then Wait on the publishing goroutine, or Shutdown with a background / already-cancelled / timeout (shorter, longer, equal to the work) context over a store that counts Close (optionally failing, absent, or without Close). After a Shutdown that returned its context's error, half of the cases publish the same events again once the old work has finished and call Shutdown a second time with a background context. Oracle = model of expected invocations and of the fake time at which the work ends: completed == expected when Wait/Shutdown(nil) return; with gates, returning while a gate is closed is a violation with no timing involved; Shutdown nil => Close exactly once after completion, context error => Close never called, also later. Non-trivial = Wait/Shutdown issued while >=1 invocation is unfinished.")
 
 func TestMain(m *testing.M) { vkit.Main(m) }
 
